@@ -151,13 +151,16 @@ def main():
                 samples.append({"case": c.id, "ops": c.lines[:6], "impl": il[:6]})
             for k in c.meta.get("tags", []):
                 stats[k] = stats.get(k, 0) + 1
-            fail = plugin.oracle(c, il) if not c.meta.get("replay") or hasattr(plugin, "oracle_replay") is False else plugin.oracle(c, il)
-            if fail:
-                oracle_failures.append((c, fail, il))
             if have_model and not c.meta.get("impl_only"):
                 ml = model.get(c.id)
-                if ml != il:
+                if hasattr(plugin, "compare"):
+                    if not plugin.compare(c, il, ml or []):
+                        disagreements.append((c, il, ml))
+                elif ml != il:
                     disagreements.append((c, il, ml))
+            fail = plugin.oracle(c, il)
+            if fail:
+                oracle_failures.append((c, fail, il))
         if hasattr(plugin, "extra_checks"):
             # property-specific checks that are not script based (e.g. in-harness enumerations)
             for (ok, what, replay_text, cov) in plugin.extra_checks(tier, rng, binaries, log):
